@@ -1442,6 +1442,7 @@ class Crate:
             self.bodies[bo.name] = bo
         self.adts = {a["path"]: a for a in d["adts"]}
         self.fns = {f["def"]: f for f in d["fns"]}
+        self.impls = d.get("impls", [])
         self.unsafe_blocks = d["unsafe_blocks"]
         self._callers = None
         self._closure_parent = None
